@@ -235,23 +235,7 @@ def encode (L : Layouts) (cfg : EncCfg) (vals : List (List PVal)) (payload : Bit
 
 /-! ## Decoder -/
 
-namespace R
-def pure {α : Type} (a : α) : R α := fun bs => .ok (a, bs)
-def fail {α : Type} (e : Err) : R α := fun _ => .error e
-def bind {α β : Type} (f : R α) (g : α → R β) : R β := fun bs =>
-  match f bs with
-  | .error e => .error e
-  | .ok (a, r) => g a r
-def map {α β : Type} (h : α → β) (f : R α) : R β := bind f fun a => pure (h a)
-def lift {α : Type} : Except Err α → R α
-  | .ok a => pure a
-  | .error e => fail e
-/-- run `f` and also return the number of bits it consumed -/
-def counted {α : Type} (f : R α) : R (α × Nat) := fun bs =>
-  match f bs with
-  | .error e => .error e
-  | .ok (a, r) => .ok ((a, bs.length - r.length), r)
-end R
+-- the reader combinators `R.pure`, `R.bind`, … are in Basic/Bits.lean
 
 /-- the data section content, as seen by the section coder -/
 structure DataCoder (α : Type) where
